@@ -155,7 +155,7 @@ Post ==
 Half(which, nextphase) ==
     /\ pc[2] = which
     /\ \E g \in SysGates :
-        /\ (FixedPlan = << >> \/ FixedPlan[Len(plan) + 1] = <<which, pc[1], g>>)
+        /\ (IF FixedPlan = << >> THEN TRUE ELSE FixedPlan[Len(plan) + 1] = <<which, pc[1], g>>)
         /\ terms' = ApplySys(g)
         /\ plan' = Append(plan, <<which, pc[1], g>>)
     /\ pc' = nextphase
@@ -169,7 +169,7 @@ Env ==
     /\ LET e == pc[3] IN
        /\ \E nm \in EnvGates :
             /\ (nm = "SW" => EDims[e] = D)
-            /\ (FixedPlan = << >> \/ FixedPlan[Len(plan) + 1] = <<"env", pc[1], e, nm>>)
+            /\ (IF FixedPlan = << >> THEN TRUE ELSE FixedPlan[Len(plan) + 1] = <<"env", pc[1], e, nm>>)
             /\ terms' = ApplyEnv(e, nm)
             /\ plan' = Append(plan, <<"env", pc[1], e, nm>>)
        /\ pc' = IF e = E THEN <<pc[1], "h2">> ELSE <<pc[1], "env", e + 1>>
